@@ -687,7 +687,7 @@ def rule_modf(prog, rep, tier, workers=("conformance._conform_filename", "sync_p
                     flags.add((a.id, pol))
         guarded_by[st] = flags
     for w in workers:
-        fi = prog.fn_role(w, "conform_file") if w == "conformance._conform_filename" else prog.fn(w)
+        fi = prog.inl(prog.fn_role(w, "conform_file") if w == "conformance._conform_filename" else prog.fn(w))
         reads = [c for f_ in prog.region(fi) for c in ast.walk(f_.node) if isinstance(c, ast.Call) and prog.is_fn(c.func, "source_transformer.ast_parse", c)]
         if not reads:
             raise AnalysisError("MOD-F: %s no longer reads its module through ast_parse" % w)
@@ -785,6 +785,8 @@ def _is_identity_relist(prog, fi, target, value):
 def _fresh_value(prog, v, depth=0):
     """is the expression a freshly built / copied node?  deepcopy(...), ast.<Node>(...), or a call of a repository
     function all of whose returns are fresh"""
+    if isinstance(v, ast.IfExp):
+        return _fresh_value(prog, v.body, depth) and _fresh_value(prog, v.orelse, depth)
     if not isinstance(v, ast.Call):
         return False
     nm = v.func.id if isinstance(v.func, ast.Name) else getattr(v.func, "attr", "")
